@@ -918,7 +918,7 @@ class Element(object):
             if name == 'children':
                 children = []
                 if not isinstance(value, ElementList):
-                    children = value
+                    children = list(value)  # any iterable: it is walked more than once
                     value = ElementList(self)
                 old_children = self.__dict__.get('children')
                 last_child_index = self.__dict__.get('_last_child_index')
